@@ -1359,6 +1359,132 @@ def regfuture_conditions(rng):
     return p
 
 
+def loop_register_writes(sub):
+    """Static check on one emitted proto-subroutine (canonical commands): inside a loop (label L ... jmp L) the
+    loop register (operand of the `beq` after L, incremented by the `add` before the jmp) is written by no other
+    instruction of the body.  Returns a list of offending (position, command, register)."""
+    bad = []
+    if not sub:
+        return bad
+    pos = {c["l"]: i for i, c in enumerate(sub) if "l" in c}
+    for j, c in enumerate(sub):
+        if c.get("i") != "jmp" or not c["o"] or "l" not in c["o"][0] or c["o"][0]["l"] not in pos:
+            continue
+        i = pos[c["o"][0]["l"]]
+        if not (i + 1 < j and sub[i + 1].get("i") == "beq" and "r" in sub[i + 1]["o"][0]):
+            continue
+        reg = sub[i + 1]["o"][0]["r"]
+        inc = sub[j - 1]
+        if not (inc.get("i") == "add" and inc["o"][0].get("r") == reg):
+            bad.append([j - 1, inc, reg])
+            continue
+        for k in range(i + 2, j - 1):
+            x = sub[k]
+            if "i" not in x:
+                continue
+            dst = None
+            if x["i"] in ("set", "add", "sub", "addm", "subm", "load", "lea") and x["o"]:
+                dst = x["o"][0].get("r")
+            elif x["i"] == "meas" and len(x["o"]) > 1:
+                dst = x["o"][1].get("r")
+            if dst == reg:
+                bad.append([k, x, reg])
+    return bad
+
+
+def add_history(rng, n_ops=30, flush_every=4):
+    """`RegFuture.add` / `Future.add` with every operand kind (int, array Future, future-indexed Future, register)
+    with and without a modulus, on `new_register()` registers and array entries: completed operations, none may
+    keep a register."""
+    p = [{"k": "arr", "len": 2, "init": [0, 1]}, {"k": "arr", "len": 2, "init": [1, 1]},
+         {"k": "arr", "len": 2, "init": [2, 0]}, {"k": "reg", "v": rng.randrange(1, 9)},
+         {"k": "reg", "v": rng.randrange(1, 9)}, {"k": "flush"}]
+
+    def fut():
+        return {"a": rng.choice([1, 2]), "i": rng.randrange(2)}
+
+    def other():
+        return rng.choice([{"v": rng.randrange(1, 5)}, {"f": fut()}, {"f": fut()},
+                           {"f": {"a": rng.choice([1, 2]), "f": {"a": 0, "i": rng.randrange(2)}}}])
+
+    for i in range(n_ops):
+        m = rng.choice([None, None, 5, 7, 11])
+        if rng.random() < 0.6:
+            p.append({"k": "addr", "h": rng.randrange(2), "o": other(), "m": m})
+        else:
+            p.append({"k": "addf", "f": rng.choice([fut(), {"a": rng.choice([1, 2]), "f": {"a": 0, "i": 1}}]),
+                      "o": other(), "m": m})
+        if (i + 1) % flush_every == 0:
+            p.append({"k": "flush"})
+    if p[-1]["k"] != "flush":
+        p.append({"k": "flush"})
+    return p
+
+
+def m_across_flushes(rng):
+    """Outcomes measured into REGISTERS (`measure(store_array=False)`) and `new_register()` values in one flush,
+    used as conditions / operands in LATER flushes (no other register measurement in between: the SDK hands the M
+    registers out again after a flush)."""
+    p = [{"k": "arr", "len": 2, "init": [0, 1]}, {"k": "arr", "len": 2, "init": [1, 1]},
+         {"k": "arr", "len": 2, "init": [2, 0]}]
+    hs, regs = [], []
+    h = 0
+    for _ in range(rng.choice([1, 2, 3])):
+        p.append({"k": "qop", "g": [rng.randrange(7)] if rng.random() < 0.6 else [], "t": {"k": "reg"}})
+        hs.append(h)
+        h += 1
+    if rng.random() < 0.6:
+        p.append({"k": "reg", "v": rng.randrange(0, 3)})
+        regs.append(h)
+        h += 1
+    p.append({"k": "flush"})
+
+    def fut():
+        return {"a": rng.choice([1, 2]), "i": rng.randrange(2)}
+
+    def body():
+        return [{"k": "addf", "f": fut(), "o": {"v": rng.randrange(1, 6)}, "m": None}
+                for _ in range(rng.choice([1, 2]))]
+
+    for seg in range(rng.choice([1, 2, 3])):
+        for _ in range(rng.choice([1, 2, 3])):
+            hh = rng.choice(hs + regs)
+            c = rng.choice(["ez", "nz", "eq", "ne", "lt", "ge"])
+            b = {"v": 0} if c in ("ez", "nz") else rng.choice([{"v": rng.randrange(2)}, {"f": {"a": 0, "i": rng.randrange(2)}}])
+            p.append({"k": "if", "cb": rng.random() < 0.5, "c": c, "a": {"h": hh}, "b": b, "body": body()})
+            if regs and rng.random() < 0.3:
+                p.append({"k": "addr", "h": regs[0], "o": {"v": 1}, "m": None})
+        p.append({"k": "flush"})
+    return p
+
+
+def oracle_flush_invariance(prog, outcomes):
+    """Model-free, metamorphic: where the flushes are placed does not change what the controller computes.
+    The program with its flushes is run on the real Executor; the direct interpreter evaluates the same
+    statements in ONE flush (there every register handle is alive).  Compared: gate/measurement trace and
+    the controller's arrays after the last flush."""
+    try:
+        d = Direct(outcomes).run(without_inner_flushes(prog))
+    except Invalid as e:
+        return "invalid", str(e)
+    r = RealRun(execute=True, outcomes=outcomes).run(prog, read=True)
+    if r.err is not None:
+        return "fail", [{"what": "real SDK/controller raised on a valid program", "err": r.err,
+                         "exec_err": r.exec_err, "exc": repr(r.first_exc), "feature": "raise"}]
+    fails = []
+    if r.trace() != d.trace:
+        fails.append({"what": "gate/measurement trace differs from the single-flush evaluation",
+                      "real": r.trace()[:12], "direct": d.trace[:12], "feature": "trace"})
+    want = d.views[-1]["arr"]
+    got = r.reads[-1]["ctrl"]["arrays"]
+    for a, vals in want.items():
+        if got.get(a) != vals:
+            fails.append({"what": "controller array @%d after the last flush differs from the single-flush "
+                                  "evaluation (a register-held value did not survive a flush)" % a,
+                          "real": got.get(a), "direct": vals, "feature": "ctrl-array"})
+    return ("fail", fails) if fails else ("ok", None)
+
+
 # ----------------------------------------------------------------------------- comparison helpers
 
 
